@@ -244,6 +244,48 @@ theorem stale_refused {m : Mol} (a : AtomId) (ha : a ∉ m.ids) (b : Nat) (hb : 
     cases resolveAtom m.atoms r <;> rfl
   · simp only [step, if_neg hb]
 
+/-- The refusal rule of `append_bonds` / `extend_bonds` for bond objects: the call is refused — as a whole, nothing changes —
+exactly when one of the objects is already in the molecule or is named twice in the call.  The rule mentions nothing but the
+identities: a bond object outside the molecule has no parent in the model, so new bonds (parent `None`), bonds of another
+molecule and bonds deleted earlier are all treated alike. -/
+theorem append_bond_objects_refused_iff {m : Mol} (l : List (Nat × AtomSpec × AtomSpec)) :
+    (step m (.appendBondObjs l) = (m, .err) ↔ ((∃ p ∈ l, p.1 ∈ m.bonds.map (·.id)) ∨ ¬ (l.map (·.1)).Nodup)) ∧
+    ((step m (.appendBondObjs l)).2 = .ok ↔ ((∀ p ∈ l, p.1 ∉ m.bonds.map (·.id)) ∧ (l.map (·.1)).Nodup)) := by
+  by_cases hc : (∀ p ∈ l, p.1 ∉ m.bonds.map (·.id)) ∧ (l.map (·.1)).Nodup
+  · have hs : step m (.appendBondObjs l) =
+        (l.foldl (fun acc p => pushBond { acc with next := max acc.next (p.1 + 1) } p.1 p.2.1 p.2.2) m, .ok) := by
+      simp only [step, if_pos hc]
+    rw [hs]
+    refine ⟨⟨fun h => ?_, fun h => ?_⟩, ⟨fun _ => hc, fun _ => rfl⟩⟩
+    · have := congrArg Prod.snd h
+      cases this
+    · rcases h with ⟨p, hp, hm⟩ | h
+      · exact absurd hm (hc.1 p hp)
+      · exact absurd hc.2 h
+  · have hs : step m (.appendBondObjs l) = (m, .err) := by simp only [step, if_neg hc]
+    rw [hs]
+    refine ⟨⟨fun _ => ?_, fun _ => rfl⟩, ⟨fun h => ?_, fun h => absurd h hc⟩⟩
+    · by_cases h1 : ∀ p ∈ l, p.1 ∉ m.bonds.map (·.id)
+      · exact Or.inr (fun hn => hc ⟨h1, hn⟩)
+      · left
+        apply Classical.byContradiction
+        intro hne
+        apply h1
+        intro p hp hm
+        exact hne ⟨p, hp, hm⟩
+    · cases h
+
+/-- an object named twice (adjacent or not, twice or more) makes the whole call a refusal that changes nothing -/
+theorem append_bond_objects_twice_refused {m : Mol} (l1 l2 l3 : List (Nat × AtomSpec × AtomSpec)) (b : Nat)
+    (x y x' y' : AtomSpec) :
+    step m (.appendBondObjs (l1 ++ (b, x, y) :: l2 ++ (b, x', y') :: l3)) = (m, .err) := by
+  apply (append_bond_objects_refused_iff _).1.mpr
+  right
+  intro hn
+  simp only [List.map_append, List.map_cons, List.append_assoc, List.cons_append] at hn
+  have := (List.nodup_append.mp hn).2.1
+  simp only [List.nodup_cons, List.mem_append, List.mem_cons, true_or, or_true, not_true_eq_false, false_and] at this
+
 /-! ## views held across edits ("also … for Conformer/Substructure views where the operation is defined")
 
 A `Substructure` holds atom OBJECTS; every access locates their rows at that moment.  `viewRead as` / `viewWrite as ps`
